@@ -59,6 +59,10 @@ CHECKS = {
         'text': 'export -> import round trips with every number a symbol printed as an opaque token: JSON (curves, surfaces with spline/freeform/container trims, volumes, containers of 1-3), smesh, vmesh, txt (1-D/2-D, custom separators), csv, compatibility *_file helpers: degrees, sizes, knot vectors, control points, weights, delta, trims and evaluated points identical; documented row/column layout of the files.',
         'note': COMMON_NOTE + 'File system = in-memory map, json = real json with token strings (symbolic mode); real files / real json in float replay. YAML/libconfig not installed.',
     },
+    'C15': {
+        'text': 'Triangular / trim / quad tessellators through Surface.tessellate for sample sizes and vertex spacings of the family: ids consecutive, faces reference existing vertices, vertex positions == Cox-de Boor definition at the stored (u,v) for ALL control points/weights; the concrete (u,v) triangles cover EVERY symbolic query point of the open square exactly once with one orientation (+ edge sharing, Euler characteristic 1); rectangular trims (both senses) remove exactly the trimmed region up to one cell; OBJ/OFF/ASCII-STL of 1-3 surfaces parse back to exactly this mesh (offsets, counts, facet normals).',
+        'note': COMMON_NOTE + 'Bounds: sample sizes 2..6 (9), spacings 1..3 (4); binary STL and vertex normals outside; float drift of the accumulated parameter outside.',
+    },
     'C16': {
         'text': 'lu_solve / lu_factor / matrix_inverse / matrix_determinant / matrix_pivot / lu_decomposition satisfy A x = b, A A^-1 = I, Leibniz, genuine permutation, L U = A for ALL symbolic matrices of the stated sizes on every pivoting path; diagonally dominant and collocation matrices always return; two-call histories (memoised identity matrix); vector/matrix helpers, binomial, linspace, frange equal their definitions.',
         'note': COMMON_NOTE + 'Bounds: n<=3 (4 for lu_solve), pivoting routines n=3 partly concrete in quick; results claimed only when a result is returned. Known finding: matrix_determinant on 3x3 with a zero pivot after static pivoting.',
